@@ -319,6 +319,25 @@ func runCheck(repo, prop, tier string) int {
 			items = append(items, vcObl{vc, o})
 		}
 	}
+	{
+		// smoke test for the axiomatisation itself: the prelude, the string-extensionality axiom and every
+		// assumed axiom of the contract files together must not be refutable (run with the full budget;
+		// "unknown" is the expected answer, "unsat" means that everything would be provable)
+		pvc := NewVC(w, "prelude")
+		pvc.trig["strext"] = true
+		for _, lm := range w.cons.Lemmas {
+			if !lm.Axiom {
+				continue
+			}
+			if ax, e := w.lemmaAxiom(lm.Label, pvc.used); e == nil {
+				pvc.assume(True, ax)
+			}
+		}
+		if o := pvc.oblige("cover", "cover/prelude/pre", []string{prop}, True, False, ""); o != nil {
+			o.ExpectSat = true
+			items = append(items, vcObl{pvc, o})
+		}
+	}
 	if len(harness) > 0 {
 		for _, h := range harness {
 			fmt.Println("HARNESS-ERROR:", h)
